@@ -419,6 +419,69 @@ func runTCP(r *hk.Run, rng *hk.Rand) {
 		}
 		checkTCP(r, s, method, "tcp:"+shape, rng.Chance(40))
 	}
+	runTCPLimits(r)
 }
 
 var _ = bytes.Equal
+
+// ---------- MaxResponseHeaderBytes (persistConn.readLimit) ----------
+
+// limitClients: both transports with the same small response-header limit.
+func limitClients(limit int64) (rtMaker, rtMaker) {
+	ref := rtMaker{"reference", func() (http.RoundTripper, func()) {
+		t := &http.Transport{DisableCompression: true, Proxy: nil, MaxResponseHeaderBytes: limit}
+		return t, t.CloseIdleConnections
+	}, func(rc io.ReadCloser) bool { return rc == http.NoBody }}
+	fork := rtMaker{"fork", func() (http.RoundTripper, func()) {
+		t := req.T().DisableAutoDecode()
+		t.DisableCompression = true
+		t.Proxy = nil
+		t.MaxResponseHeaderBytes = limit
+		return t, t.CloseIdleConnections
+	}, req.VerifC04IsNoBody}
+	return ref, fork
+}
+
+// runTCPLimits: header blocks around the configured limit (status line + header fields + blank
+// line = total bytes), also behind informational responses (the limit is reset per response).
+// Oracle only (the limit is outside the Coq model): fork client = reference client.
+func runTCPLimits(r *hk.Run) {
+	const limit = 2048
+	ref, fork := limitClients(limit)
+	mk := func(total int, pre string) []byte {
+		head := "HTTP/1.1 200 OK\r\nContent-Length: 2\r\nX-Pad: "
+		tail := "\r\n\r\n"
+		pad := total - len(head) - len(tail)
+		if pad < 0 {
+			pad = 0
+		}
+		return []byte(pre + head + strings.Repeat("p", pad) + tail + "hi")
+	}
+	for _, total := range []int{512, 2040, 2046, 2047, 2048, 2049, 2050, 2100, 4095, 4096, 4097, 6000} {
+		for _, pre := range []string{"", "HTTP/1.1 100 Continue\r\n\r\n", "HTTP/1.1 103 Early Hints\r\nLink: " + strings.Repeat("l", 1500) + "\r\n\r\n"} {
+			stream := mk(total, pre)
+			shape := fmt.Sprintf("tcp-limit-%d-head-%d-pre-%d", limit, total, len(pre))
+			a := tcpObserve(ref, stream, "GET", false, false)
+			b := tcpObserve(fork, stream, "GET", false, false)
+			r.Count("tcp.limit-cases")
+			if a.Hung {
+				r.Count("tcp.skipped-reference-hangs")
+				continue
+			}
+			if a.key() != b.key() {
+				field := diffFields(a.O, b.O)
+				if b.Hung {
+					field = "hang"
+				}
+				r.Fail(hk.Failure{Sig: "h1tcp:" + field + ":header-limit:" + shape,
+					What:  fmt.Sprintf("MaxResponseHeaderBytes=%d: the fork's client differs from net/http's client", limit),
+					Input: tcpInput(stream, "GET", shape), Got: b, Want: a})
+			}
+			if a.O.Rej != "" {
+				r.Count("tcp.limit-rejected")
+			} else {
+				r.Count("tcp.limit-accepted")
+			}
+		}
+	}
+}
